@@ -66,8 +66,12 @@ func setup6(args ...string) (handler.Handler6, error) {
 	if err != nil {
 		return nil, err
 	}
-	opt59 = dhcpv6.OptBootFileURL(u.String())
 	params := u.Query().Get("params")
+	// DHCPv6 option lengths are 16 bits (the parameter carries 2 more bytes for its own length)
+	if len(u.String()) > 0xffff || len(params)+2 > 0xffff {
+		return nil, fmt.Errorf("NBP URL or parameters too long for a DHCPv6 option")
+	}
+	opt59 = dhcpv6.OptBootFileURL(u.String())
 	if params != "" {
 		// RFC5970 §3.2: each parameter is preceded by its 16-bit length
 		opt60 = dhcpv6.OptBootFileParam(params)
